@@ -290,6 +290,8 @@ func init() {
 				}
 				if r.chance(20) {
 					in["signer"] = "rsa"
+					// the real signer does not fail; "the signer fails" is a case of the recording signer only
+					delete(in, "signerFails")
 					if r.bool() {
 						in["digest"] = true
 					}
